@@ -214,7 +214,7 @@ func oracleValue(f *sfnt.Font) (*cycleResult, []*failure) {
 		return res, []*failure{{"write-" + kind + "-on-value", clip(err.Error(), 300)}}
 	}
 	res.W0 = w0
-	for i := 0; i < 4; i++ {
+	for i := 0; i < repeatWrites(f)-1; i++ {
 		w, err := writeFont(f)
 		if err != nil || !bytes.Equal(w, w0) {
 			fails = append(fails, &failure{"write-not-deterministic", fmt.Sprintf("write #%d of the same value differs (err=%v, first difference at byte %d)", i+2, err, firstDiff(w, w0))})
@@ -240,6 +240,23 @@ func oracleValue(f *sfnt.Font) (*cycleResult, []*failure) {
 		}
 	}
 	return res, fails
+}
+
+// repeatWrites: how often one value is written to look for a dependence on
+// map iteration order.  A wrong order shows up in a single pair of writes
+// with probability well below 1/2, so small fonts (cheap to write) and fonts
+// with map-backed data whose sort key can tie are written 24 times, the rest
+// five times.
+func repeatWrites(f *sfnt.Font) int {
+	n := 0
+	func() {
+		defer func() { recover() }()
+		n = f.NumGlyphs()
+	}()
+	if n <= 64 || len(f.CMapTable) > 2 {
+		return 24
+	}
+	return 5
 }
 
 // fixedPoint: F1 was produced by Read; one more cycle must reproduce it
@@ -343,7 +360,7 @@ func oracleBytes(b []byte) (f0 *sfnt.Font, res *cycleResult, fails []*failure) {
 			fails = append(fails, &failure{"bytes-not-fixed-point", fmt.Sprintf("Write(Read(b)) and Write(Read(Write(Read(b)))) differ, first at byte %d (lengths %d, %d)", firstDiff(w0, w1), len(w0), len(w1))})
 		}
 	}
-	for i := 0; i < 2; i++ {
+	for i := 0; i < repeatWrites(f0)/2; i++ {
 		w, err := writeFont(f0)
 		if err != nil || !bytes.Equal(w, w0) {
 			fails = append(fails, &failure{"write-not-deterministic", "repeated write of the read font differs"})
